@@ -23,6 +23,12 @@ enum Op {
     DropBuilder(usize),
     ObsSession(usize),
     ObsBuilder(usize),
+    /// `try_prepare()` on builder i (consumes it): observes the settings and the prepared header map
+    Prep(usize),
+}
+
+fn default_ua() -> String {
+    format!("attohttpc/{}", std::env::var("ATTO_PKG_VERSION").unwrap_or_else(|_| "0.29.2".into()))
 }
 
 impl Op {
@@ -42,6 +48,7 @@ impl Op {
             Op::DropBuilder(i) => format!("db:{}", i),
             Op::ObsSession(i) => format!("os:{}", i),
             Op::ObsBuilder(i) => format!("ob:{}", i),
+            Op::Prep(i) => format!("pb:{}:{}", i, hex(default_ua().as_bytes())),
         }
     }
 }
@@ -252,8 +259,40 @@ fn apply(w: &mut World, op: &Op) -> Option<String> {
                 return Some(show(&b.verif_settings(), &hs));
             }
         }
+        Op::Prep(i) => {
+            if let Some(slot) = w.builders.get_mut(*i) {
+                if let Some(b) = slot.take() {
+                    let hs: Vec<(String, Vec<u8>)> = b.headers().iter().map(|(n, v)| (n.as_str().to_string(), v.as_bytes().to_vec())).collect();
+                    let snap = show(&b.verif_settings(), &hs);
+                    return Some(match b.try_prepare() {
+                        Ok(p) => {
+                            let ph: Vec<(String, Vec<u8>)> = p.headers().iter().map(|(n, v)| (n.as_str().to_string(), v.as_bytes().to_vec())).collect();
+                            format!("{};prep={}", snap, canon_headers(&ph))
+                        }
+                        Err(_) => format!("{};prep=e", snap),
+                    });
+                }
+            }
+        }
     }
     None
+}
+
+/// the statement's rules for the prepared header map of a body-less request
+fn spec_prepare(co: bool, hs: &[(String, Vec<u8>)]) -> Vec<(String, Vec<u8>)> {
+    let mut h = hs.to_vec();
+    if co {
+        hset(&mut h, "accept-encoding", b"gzip, deflate");
+    }
+    hset(&mut h, "connection", b"close");
+    h.retain(|(k, _)| k != "content-length" && k != "transfer-encoding");
+    if !h.iter().any(|(k, _)| k == "accept") {
+        h.push(("accept".into(), b"*/*".to_vec()));
+    }
+    if !h.iter().any(|(k, _)| k == "user-agent") {
+        h.push(("user-agent".into(), default_ua().into_bytes()));
+    }
+    h
 }
 
 // ---------------------------------------------------------------- by-value specification (oracle)
@@ -364,6 +403,13 @@ fn spec_run(ops: &[Op]) -> Vec<String> {
                     out.push(b.0.show(&b.1))
                 }
             }
+            Op::Prep(i) => {
+                if let Some(slot) = builders.get_mut(*i) {
+                    if let Some(b) = slot.take() {
+                        out.push(format!("{};prep={}", b.0.show(&b.1), canon_headers(&spec_prepare(b.0.sc[8] != 0, &b.1))))
+                    }
+                }
+            }
         }
     }
     out
@@ -372,7 +418,7 @@ fn spec_run(ops: &[Op]) -> Vec<String> {
 fn gen_ops(rng: &mut Rng, len: usize, observe_all_at_end: bool) -> Vec<Op> {
     let mut ns = 0usize;
     let mut nb = 0usize;
-    let names = ["x-a", "x-b", "accept", "user-agent"];
+    let names = ["x-a", "x-b", "accept", "user-agent", "accept", "user-agent", "range", "accept-encoding", "connection", "content-length", "te", "if-range"];
     let mut ops = vec![Op::NewSession];
     ns += 1;
     for _ in 0..len {
@@ -402,6 +448,7 @@ fn gen_ops(rng: &mut Rng, len: usize, observe_all_at_end: bool) -> Vec<Op> {
                 }
             }
             14 => Op::ObsSession(rng.below(ns as u64) as usize),
+            _ if nb > 0 && rng.chance(1, 4) => Op::Prep(rng.below(nb as u64) as usize),
             _ if nb > 0 => Op::ObsBuilder(rng.below(nb as u64) as usize),
             _ => Op::ObsSession(rng.below(ns as u64) as usize),
         };
@@ -417,7 +464,7 @@ fn gen_ops(rng: &mut Rng, len: usize, observe_all_at_end: bool) -> Vec<Op> {
             ops.push(Op::ObsSession(i));
         }
         for i in 0..nb {
-            ops.push(Op::ObsBuilder(i));
+            ops.push(if rng.chance(1, 2) { Op::Prep(i) } else { Op::ObsBuilder(i) });
         }
     }
     ops
@@ -462,7 +509,7 @@ fn normalise(ops: Vec<Op>) -> Vec<Op> {
                 true
             }
             Op::SessSet(i, ..) | Op::SessHeader(i, ..) | Op::SessAppend(i, ..) | Op::ObsSession(i) => *i < live_s.len(),
-            Op::BldSet(i, ..) | Op::BldHeader(i, ..) | Op::BldAppend(i, ..) | Op::ObsBuilder(i) | Op::DropBuilder(i) => *i < nb,
+            Op::BldSet(i, ..) | Op::BldHeader(i, ..) | Op::BldAppend(i, ..) | Op::ObsBuilder(i) | Op::DropBuilder(i) | Op::Prep(i) => *i < nb,
         };
         if ok {
             out.push(op);
@@ -529,7 +576,8 @@ pub fn generate(seed: u64, tier: &str, sink: &mut Sink) {
         } else {
             let i = got.iter().zip(want.iter()).position(|(a, b)| a != b).unwrap_or(got.len().min(want.len()));
             let kind = if ops.iter().any(|o| matches!(o, Op::Clone(_))) { "with-clone" } else { "no-clone" };
-            Err((format!("settings-leak-{}", kind), format!("observation #{}: got {:?}, by-value semantics give {:?}", i, got.get(i), want.get(i))))
+            let kind = if got.get(i).map_or(false, |g| g.contains(";prep=")) && got.get(i).map(|g| g.split(";prep=").next()) == want.get(i).map(|g| g.split(";prep=").next()) { "prepared-headers" } else { kind };
+            Err((if kind == "prepared-headers" { kind.to_string() } else { format!("settings-leak-{}", kind) }, format!("observation #{}: got {:?}, by-value semantics give {:?}", i, got.get(i), want.get(i))))
         };
         let op = format!("sess {}", ops.iter().map(|o| o.token()).collect::<Vec<_>>().join(";"));
         sink.push(Case {
